@@ -93,13 +93,8 @@ func clientType(genpkg string, svc *expr.GRPCServiceExpr, _ map[string]struct{})
 				Source: readTemplate("type_init"),
 				Data:   init,
 				FuncMap: map[string]any{
-					"isAlias": expr.IsAlias,
-					"fullName": func(dt expr.DataType) string {
-						if loc := codegen.UserTypeLocation(dt); loc != nil {
-							return loc.PackageName() + "." + dt.Name()
-						}
-						return dt.Name()
-					},
+					"isAlias":        expr.IsAlias,
+					"aliasFieldCode": aliasFieldCode,
 				},
 			})
 		}
